@@ -22,7 +22,8 @@ def sched_model(rc, rm):
 
 SCHED_QUICK = [sched_model(1, 1), sched_model(4, 1), sched_model(7, 16)]
 SCHED_THOROUGH = [sched_model(1, 5), sched_model(2, 2), sched_model(5, 4), sched_model(10, 32)]
-MODELS_THOROUGH_EXTRA = {"C06": SCHED_THOROUGH, "C11": SCHED_THOROUGH,
+MODELS_THOROUGH_EXTRA = {"C06": SCHED_THOROUGH,
+                         "C11": SCHED_THOROUGH + [("TimerLive.tla", "TimerLive_big.cfg", ("Send", "Fire", "Tick", "Respond"))],
                          "C07": [("MC_StunClient.tla", "MC_StunClient_st_big.cfg", ("SendRequest", "Recv", "OnTimeout"))]}
 MODELS = {
     "C03": [M_LT],
@@ -31,7 +32,7 @@ MODELS = {
     "C07": [M_ST_REL, M_ST],
     "C08": [M_LT, M_LT_RFC],
     "C10": [M_ST_REL, M_REL],
-    "C11": [M_REL, M_UNREL] + SCHED_QUICK,
+    "C11": [M_REL, M_UNREL] + SCHED_QUICK + [("TimerLive.tla", "TimerLive.cfg", ("Send", "Fire", "Tick", "Respond"))],
     "C12": [M_REL, M_UNREL],
     "C13": [M_ST_REL, M_LT],
     "C15": [M_UNREL],
